@@ -38,7 +38,7 @@ func init() {
 							continue
 						}
 						for _, pat := range c04Patterns {
-							if pat == "cleanup-clients" && (launch == "reattach" || strings.HasPrefix(beh, "failed-handshake")) {
+							if pat == "cleanup-clients" && strings.HasPrefix(beh, "failed-handshake") {
 								continue
 							}
 							if pat == "race-client" && strings.HasPrefix(beh, "failed-handshake") {
@@ -109,7 +109,7 @@ func runC04(r *h.Run) {
 		if launch == "reattach" {
 			c.Launch = "cmd"
 		}
-		c.Managed = pat == "cleanup-clients"
+		c.Managed = pat == "cleanup-clients" && launch != "reattach"
 		p := &c04Plugin{conf: c, beh: beh, name: c.Name, marker: "/tmp/marker-" + c.Name}
 		cleanup := time.Duration(-1)
 		if len(beh) > 8 && beh[:8] == "cleanup:" {
@@ -176,7 +176,7 @@ func runC04(r *h.Run) {
 			p.cl = plugin.NewClient(&plugin.ClientConfig{
 				HandshakeConfig: plugins.Handshake, Plugins: h.PluginSet(base.Proto, plugins.NewShared("host")),
 				AllowedProtocols: []plugin.Protocol{plugin.ProtocolNetRPC, plugin.ProtocolGRPC},
-				Logger:           r.Logger("hostB"), Reattach: rc,
+				Logger:           r.Logger("hostB"), Reattach: rc, Managed: pat == "cleanup-clients",
 			})
 			if o := r.DoNoHang("StartB["+p.name+"]", 60*time.Second, ctx, func() (any, error) { return p.cl.Start() }); o.Err != nil || o.Hung {
 				r.Violate("setup", "reattach failed "+ctx, fmt.Sprint(o.Err))
